@@ -541,6 +541,8 @@ def _isinstance(ex, st, args, kw, node):
         return z3.BoolVal(st.heap[v.oid].cls in names)
     if isinstance(v, objects.SObj):
         return z3.BoolVal(v.cls in names)
+    if isinstance(v, (objects.SLRef, LRef)):
+        return z3.BoolVal("list" in names)
     raise Undecided("isinstance of this value")
 
 
